@@ -20,6 +20,7 @@ from .. import c11_meshes as M
 from ..core import TranslateError, cbool, clist, cnat, cnats, cz, np_seed
 
 KINDS = M.KINDS
+NV_OF = {'f': None}     # set by translate(): the number interior_nodes complements in
 REFDOM = {'line': 'RefLine', 'tri': 'RefTri', 'quad': 'RefQuad', 'tet': 'RefTet', 'hex': 'RefHex', 'wedge': 'RefWedge'}
 
 
@@ -93,8 +94,18 @@ def translate():
             'return np.setdiff1d(np.arange(self.edges.shape[1], dtype=np.int32), self.boundary_edges())', 'Mesh3D.interior_edges')
     for nm, fn in (('boundary_facets', 'return np.nonzero(self.f2t[1] == -1)[0].astype(np.int32)'),
                    ('boundary_nodes', 'return np.unique(self.facets[:, self.boundary_facets()])'),
-                   ('interior_nodes', 'return np.setdiff1d(np.arange(0, self.p.shape[1]), self.boundary_nodes())')):
+                   ):
         _expect(t2.only(_body(t2.find_def(tree, nm, 'Mesh')), nm + ' body'), fn, 'Mesh.' + nm)
+    # interior_nodes: complement of the boundary nodes in range(number of vertices); the source may spell that number as the
+    # number of points or as max(t) + 1 (they differ for higher-order meshes only)
+    got = t2.src(t2.only(_body(t2.find_def(tree, 'interior_nodes', 'Mesh')), 'interior_nodes body'))
+    spell = {'return np.setdiff1d(np.arange(0, self.p.shape[1]), self.boundary_nodes())': lambda m: int(m.p.shape[1]),
+             'return np.setdiff1d(np.arange(0, self.nvertices), self.boundary_nodes())': lambda m: int(m.nvertices)}
+    if got not in spell:
+        raise TranslateError('Mesh.interior_nodes: ' + got)
+    NV_OF['f'] = spell[got]
+    nvp = t2.find_def(tree, 'nvertices', 'Mesh')
+    _expect(t2.only(_body(nvp), 'nvertices body'), 'return np.max(self.t) + 1', 'Mesh.nvertices')
     # --- per mesh class: refdom, boundary refdom, sort flag
     lines = []
     names = {}
@@ -195,7 +206,8 @@ def tables2(m):
 
 
 def case_input(kind, m):
-    return f'(K{kind}, {cnat(m.p.shape[1])}, {ccols(m.t)})'
+    nvf = NV_OF['f'] or (lambda mm: int(mm.p.shape[1]))
+    return f'(K{kind}, {cnat(nvf(m))}, {ccols(m.t)})'
 
 
 # ------------------------------------------------------------------------------ the check
@@ -484,6 +496,41 @@ def _big_mesh(rng, kind, quick):
     return M.build(kind, p, t), info
 
 
+def oracle_on_facet(kind):
+    """Refdom.on_facet(i, X) (used to locate points on reference facets) against the geometry: true in the relative interior
+    of facet i (away from its boundary by more than the tolerance), false on the other facets' interiors, false for points
+    of the facet's plane outside the bounding box of the reference cell; returns list of messages"""
+    import skfem.refdom as R
+    r = getattr(R, REFDOM[kind])
+    try:
+        r.on_facet(0, np.zeros((r.p.shape[0], 1)))
+    except NotImplementedError:
+        return []
+    P = np.asarray(r.p, dtype=float)
+    fslots = [sorted(set(s)) for s in r.facets]
+    cen = [P[:, s].mean(axis=1) for s in fslots]
+    cell_c = P.mean(axis=1)
+    bad = []
+    for i, s in enumerate(fslots):
+        inside = [cen[i]] + [0.6 * cen[i] + 0.4 * P[:, v] for v in s]
+        outside = []
+        for k in range(P.shape[0]):         # leave the bounding box of the reference cell along every direction the facet extends in
+            if np.ptp(P[k, s]) > 0:
+                for val in (-0.25, 1.25):
+                    x = cen[i].copy()
+                    x[k] = val
+                    outside.append(x)
+        elsewhere = [cen[j] for j in range(len(fslots)) if j != i] + [cell_c]
+        for X, want, what in [(x, True, 'a point of the facet') for x in inside] + \
+                [(x, False, 'a point of the plane of the facet outside the reference cell') for x in outside] + \
+                [(x, False, 'a point off the facet') for x in elsewhere]:
+            got = bool(np.asarray(r.on_facet(i, X[:, None])).all())
+            if got != want:
+                bad.append(f'{r.__name__}.on_facet({i}, {np.round(X, 4).tolist()}) = {got} for {what} (facet vertices {s})')
+                break
+    return bad
+
+
 def euler_defect(kind, m):
     """V - E + F - C (3-D), V - F + C (2-D), V - C (1-D) minus 1: zero for a mesh of a ball"""
     nv, nf, nt = m.p.shape[1], m.facets.shape[1], m.t.shape[1]
@@ -508,6 +555,8 @@ def _oracle(ctx, rng):
         ctx.count(('refdom', kind), nontrivial=False)
         for table, msg in oracle_refdom(kind):
             ctx.fail(f'{kind}:refdom-{table}', f'{REFDOM[kind]}: {msg}', {'kind': kind, 'table': table, 'message': msg})
+        for msg in oracle_on_facet(kind):
+            ctx.fail(f'{kind}:on_facet', msg, {'kind': kind, 'table': 'on_facet', 'message': msg})
         # structured, uncarved meshes are balls: Euler characteristic 1 (any numbering / local orientation)
         for _ in range(3):
             p, t, info = M.gen_raw(rng, kind, maxcells=30, carve=False)
@@ -609,6 +658,8 @@ def replay(ctx, data):
     """re-run the oracle on the recorded mesh"""
     inp = data['input']
     if 'p' not in inp:          # a reference-cell table
+        for msg in oracle_on_facet(inp['kind']):
+            ctx.fail(f"{inp['kind']}:on_facet", msg, inp)
         for table, msg in oracle_refdom(inp['kind']):
             ctx.fail(f"{inp['kind']}:refdom-{table}", msg, inp)
         ctx.log('replay', data.get('key'), '->', [f['key'] for f in ctx.failures] or 'no failure on this tree')
